@@ -348,7 +348,7 @@ Lemma demo_ok :
   hist_ok_b demo_ops = true /\ pods_settled_b (fst (run demo_ops)) = true /\
   forallb is_deliver_b demo_round = true /\ covers_b (fst (run demo_ops)) (snd (run demo_ops)) demo_round = true /\
   fresh_eqb (fst (run demo_ops)) (view_of (snd (run (demo_ops ++ demo_round)))) = true /\
-  length (nodes (snd (run (demo_ops ++ demo_round)))) = 2%nat /\
+  List.length (nodes (snd (run (demo_ops ++ demo_round)))) = 2%nat /\
   spec_bind (fst (run demo_ops)) "default/p0" = Some "n1" /\
   rget "pa" (npr (snd (run (demo_ops ++ demo_round)))) = (4000, 8192, 1).
 Proof. vm_compute. repeat split; reflexivity. Qed.
